@@ -204,13 +204,19 @@ Proof.
 Qed.
 
 Lemma execute_sqq d k q : k_sqq (execute d k q) = k_sqq k.
-Proof. destruct q; cbn; auto. destruct (cancelable _ _ _); [apply cancel_req_sqq|rewrite post_sqq; reflexivity]. Qed.
+Proof.
+  destruct q as [h|o|o]; cbn [execute]; auto.
+  - destruct (mem_nat o (d_rej d)); [rewrite post_sqq|]; reflexivity.
+  - destruct (cancelable d k o); [apply cancel_req_sqq|rewrite post_sqq; reflexivity].
+Qed.
 
 Lemma execute_owed d k q o : owedk (execute d k q) o = owedk k o + b2n (is_sop o q).
 Proof.
   destruct q as [h|o1|o1]; cbn [execute is_sop b2n].
   - lia.
-  - unfold owedk, count_in. cbn [k_sqq k_inflight k_cq k_ovf]. rewrite count_if_app, count_if_single. lia.
+  - destruct (mem_nat o1 (d_rej d)).
+    + rewrite post_owed. cbn [is_cop is_sop]. lia.
+    + unfold owedk, count_in. cbn [k_sqq k_inflight k_cq k_ovf]. rewrite count_if_app, count_if_single. lia.
   - destruct (cancelable d k o1) eqn:M.
     + rewrite cancel_req_owed by (apply (cancelable_mem d); exact M). lia.
     + rewrite post_owed. cbn. lia.
@@ -1136,8 +1142,10 @@ Lemma execute_covered d k q :
 Proof.
   intros C. destruct q as [h|o|o]; cbn [execute].
   - exact C.
-  - unfold pend. cbn [k_inflight k_cq k_ovf]. apply (covered_mono (k_inflight k)); [|exact C].
-    intros o'. unfold count_in. rewrite count_if_app. lia.
+  - destruct (mem_nat o (d_rej d)).
+    + rewrite post_inflight, post_pend. apply covered_snoc; [exact C|exact I].
+    + unfold pend. cbn [k_inflight k_cq k_ovf]. apply (covered_mono (k_inflight k)); [|exact C].
+      intros o'. unfold count_in. rewrite count_if_app. lia.
   - destruct (cancelable d k o) eqn:M.
     + apply cancel_req_covered; [apply (cancelable_mem d), M|exact C].
     + rewrite post_inflight, post_pend. apply covered_snoc; [exact C|exact I].
@@ -2743,7 +2751,7 @@ Qed.
 
 (** * Witnesses *)
 Definition dims22 : dims :=
-  {| d_sqn := 2; d_cqn := 2; d_len_sq := 8; d_len_sqes := 128; d_len_cq := 224; d_two := []; d_surv := [] |}.
+  {| d_sqn := 2; d_cqn := 2; d_len_sq := 8; d_len_sqes := 128; d_len_cq := 224; d_two := []; d_surv := []; d_rej := [] |}.
 
 (** H13: ring, then the fd. *)
 Definition pop_h13 : population :=
@@ -2798,7 +2806,7 @@ Proof. eexists. split; [vm_compute; reflexivity|repeat split; reflexivity]. Qed.
 
 (** Non-vacuity: a population with every kind of object, an order the borrow checker accepts. *)
 Definition pop_all : population :=
-  {| pp_d := {| d_sqn := 4; d_cqn := 4; d_len_sq := 16; d_len_sqes := 256; d_len_cq := 256; d_two := []; d_surv := [] |};
+  {| pp_d := {| d_sqn := 4; d_cqn := 4; d_len_sq := 16; d_len_sqes := 256; d_len_cq := 256; d_two := []; d_surv := []; d_rej := [] |};
      pp_clones := 1; pp_fds := 2;
      pp_ops := [(Some 0, IInflight); (None, IQueued); (Some 1, INotStarted); (Some 1, IDone); (None, IFinished)];
      pp_pools := 1; pp_bufs := [0; 0] |}.
@@ -2818,7 +2826,7 @@ Qed.
 
 (** * Operations still in flight after the Ring was dropped (H28), two-step operations *)
 Definition dims22x (two surv : list nat) : dims :=
-  {| d_sqn := 2; d_cqn := 2; d_len_sq := 8; d_len_sqes := 128; d_len_cq := 224; d_two := two; d_surv := surv |}.
+  {| d_sqn := 2; d_cqn := 2; d_len_sq := 8; d_len_sqes := 128; d_len_cq := 224; d_two := two; d_surv := surv; d_rej := [] |}.
 
 (** H28, first sort: a read the kernel does not cancel. The ring is dropped (REGISTER_SYNC_CANCEL
     leaves the request in flight), the kernel finishes the request later, the future and its
@@ -2955,7 +2963,7 @@ Qed.
     its first completion, one abandoned between the two and one whose notification arrives after
     the Ring is gone; the hypotheses hold and the log replays. *)
 Definition pop_new : population :=
-  {| pp_d := {| d_sqn := 4; d_cqn := 2; d_len_sq := 16; d_len_sqes := 256; d_len_cq := 224; d_two := [1; 2; 3]; d_surv := [0; 3] |};
+  {| pp_d := {| d_sqn := 4; d_cqn := 2; d_len_sq := 16; d_len_sqes := 256; d_len_cq := 224; d_two := [1; 2; 3]; d_surv := [0; 3]; d_rej := [] |};
      pp_clones := 1; pp_fds := 2;
      pp_ops := [(Some 0, IInflight); (Some 0, IInflight); (Some 1, IAbMid); (Some 1, IQueued); (Some 1, IAbDone)];
      pp_pools := 0; pp_bufs := [] |}.
@@ -2967,6 +2975,215 @@ Example hypotheses_satisfiable_new_sorts :
   pop_ok pop_new /\ covers (init pop_new) order_new /\ borrows_ok step_fixed (init pop_new) order_new /\
   exists m, replay (pp_d pop_new) (mon_of (init pop_new)) (snd (run step_fixed (init pop_new) order_new)) = Some m /\
             m_fd m = false /\ m_box m = [true; true; false; true; false] /\ m_desc m = [true; true].
+Proof.
+  decide_case.
+  eexists. split; [vm_compute; reflexivity|repeat split; reflexivity].
+Qed.
+
+(** * What the drop of the Ring leaves in flight
+    "Cancels what is still running": after [Drop for Ring] nothing is queued, and whatever is still
+    in flight is a request a cancellation cannot finish — one the kernel does not cancel
+    ([d_surv]) or a two-step request that only waits for its notification. The class H28 therefore
+    holds such operations only; a plain operation in flight after the [Ring] was dropped would be
+    outside every named class. *)
+Definition uncancelable (d : dims) (k : kern) (o : nat) : bool :=
+  mem_nat o (d_surv d) || (mem_nat o (d_two d) && negb (mem_nat o (k_first k))).
+
+Lemma cancelable_uncancelable d k o :
+  mem_nat o (k_inflight k) = true -> cancelable d k o = negb (uncancelable d k o).
+Proof.
+  intros M. unfold cancelable, uncancelable. rewrite M.
+  destruct (mem_nat o (d_surv d)), (mem_nat o (d_two d)), (mem_nat o (k_first k)); reflexivity.
+Qed.
+
+Lemma cancel_req_first d k o : k_first (cancel_req d k o) = remove_nat o (k_first k).
+Proof. unfold cancel_req. destruct (mem_nat o (k_first k)); rewrite ?post_first; reflexivity. Qed.
+
+Lemma mem_remove_other x o l : x <> o -> mem_nat o (remove_nat x l) = mem_nat o l.
+Proof. intros H. rewrite !mem_nat_count, (count_remove_other x o) by exact H. reflexivity. Qed.
+
+Lemma count_remove_le x o l : count_in o (remove_nat x l) <= count_in o l.
+Proof.
+  destruct (Nat.eq_dec x o) as [->|H]; [|rewrite count_remove_other by exact H; lia].
+  destruct (mem_nat o l) eqn:M; [pose proof (count_remove_same o l M); lia|].
+  assert (remove_nat o l = l) as ->; [|lia].
+  induction l as [|y l IH]; cbn in *; [reflexivity|]. destruct (y =? o) eqn:E; cbn in M; [discriminate|].
+  rewrite IH by exact M. reflexivity.
+Qed.
+
+Lemma mem_nat_In o l : mem_nat o l = true -> In o l.
+Proof.
+  induction l as [|y l IH]; cbn; [discriminate|]. destruct (Nat.eqb_spec y o) as [->|H]; cbn; [left; reflexivity|].
+  intros M. right. apply IH, M.
+Qed.
+
+Lemma sc_step_cancelable_other d k x o : x <> o -> cancelable d (sc_step d k x) o = cancelable d k o.
+Proof.
+  intros H. unfold sc_step. destruct (cancelable d k x); [|reflexivity].
+  unfold cancelable. rewrite cancel_req_inflight, cancel_req_first, !(mem_remove_other x o) by exact H. reflexivity.
+Qed.
+
+Lemma sc_step_count d k x o : count_in o (k_inflight (sc_step d k x)) <= count_in o (k_inflight k).
+Proof. unfold sc_step. destruct (cancelable d k x); [rewrite cancel_req_inflight; apply count_remove_le|lia]. Qed.
+
+Lemma sc_step_first_count d k x o : count_in o (k_first (sc_step d k x)) <= count_in o (k_first k).
+Proof. unfold sc_step. destruct (cancelable d k x); [rewrite cancel_req_first; apply count_remove_le|lia]. Qed.
+
+Lemma fold_sc_count d l : forall k o,
+  count_in o (k_inflight (fold_left (sc_step d) l k)) <= count_in o (k_inflight k).
+Proof.
+  induction l as [|x l IH]; intros k o; cbn [fold_left]; [lia|].
+  specialize (IH (sc_step d k x) o). pose proof (sc_step_count d k x o). lia.
+Qed.
+
+Lemma fold_sc_first_count d l : forall k o,
+  count_in o (k_first (fold_left (sc_step d) l k)) <= count_in o (k_first k).
+Proof.
+  induction l as [|x l IH]; intros k o; cbn [fold_left]; [lia|].
+  specialize (IH (sc_step d k x) o). pose proof (sc_step_first_count d k x o). lia.
+Qed.
+
+Lemma fold_sc_cancels d l : forall k o,
+  (forall o', count_in o' (k_inflight k) <= 1) -> In o l -> cancelable d k o = true ->
+  count_in o (k_inflight (fold_left (sc_step d) l k)) = 0.
+Proof.
+  induction l as [|x l IH]; intros k o U HI C; [destruct HI|]. cbn [fold_left].
+  destruct (Nat.eq_dec x o) as [->|Hne].
+  - pose proof (fold_sc_count d l (sc_step d k o) o) as F.
+    assert (count_in o (k_inflight (sc_step d k o)) = 0) as Z.
+    { unfold sc_step. rewrite C, cancel_req_inflight.
+      pose proof (count_remove_same o _ (cancelable_mem d k o C)). specialize (U o). lia. }
+    lia.
+  - destruct HI as [->|HI]; [congruence|]. apply IH.
+    + intros o'. pose proof (sc_step_count d k x o'). specialize (U o'). lia.
+    + exact HI.
+    + rewrite sc_step_cancelable_other by exact Hne. exact C.
+Qed.
+
+(** The blanket cancellation leaves in flight only what it cannot finish. *)
+Lemma sync_cancel_leaves d k o :
+  (forall o', count_in o' (k_inflight k) <= 1) ->
+  mem_nat o (k_inflight (sync_cancel d k)) = true ->
+  uncancelable d (sync_cancel d k) o = true.
+Proof.
+  intros U M. rewrite sync_cancel_fold in *.
+  assert (mem_nat o (k_inflight k) = true) as M0.
+  { rewrite mem_nat_count in *. pose proof (fold_sc_count d (k_inflight k) k o).
+    apply Nat.ltb_lt in M. apply Nat.ltb_lt. lia. }
+  destruct (cancelable d k o) eqn:C.
+  - pose proof (fold_sc_cancels d (k_inflight k) k o U (mem_nat_In _ _ M0) C) as Z.
+    rewrite mem_nat_count, Z in M. discriminate.
+  - rewrite cancelable_uncancelable in C by exact M0. apply negb_false_iff in C.
+    unfold uncancelable in *. apply orb_true_iff in C. apply orb_true_iff.
+    destruct C as [S|T]; [left; exact S|right].
+    apply andb_true_iff in T. destruct T as [T1 T2]. apply andb_true_iff. split; [exact T1|].
+    apply negb_true_iff in T2. apply negb_true_iff.
+    destruct (mem_nat o (k_first (fold_left (sc_step d) (k_inflight k) k))) eqn:F; [|reflexivity].
+    rewrite mem_nat_count in F, T2. pose proof (fold_sc_first_count d (k_inflight k) k o).
+    apply Nat.ltb_lt in F. apply Nat.ltb_ge in T2. lia.
+Qed.
+
+Lemma drain_fixed_inflight fuel : forall s,
+  k_sqq (s_k s) = [] ->
+  k_inflight (s_k (fst (drain_fixed fuel s))) = k_inflight (s_k s) /\
+  k_first (s_k (fst (drain_fixed fuel s))) = k_first (s_k s).
+Proof.
+  induction fuel as [|f IH]; intros s Q; cbn [drain_fixed]; [split; reflexivity|].
+  rewrite (surjective_pairing (enter_all s true)), (surjective_pairing (cq_poll _)).
+  set (s1 := fst (enter_all s true)).
+  assert (s_k s1 = flush_overflow (d_cqn (s_d s)) (s_k s)) as E1.
+  { subst s1. cbn [fst enter_all s_k set_k]. rewrite consume_all_nil by exact Q. reflexivity. }
+  assert (k_sqq (s_k s1) = []) as Q1 by (rewrite E1; exact Q).
+  set (s2 := fst (cq_poll s1)).
+  assert (k_sqq (s_k s2) = [] /\ k_inflight (s_k s2) = k_inflight (s_k s) /\ k_first (s_k s2) = k_first (s_k s)) as (Q2 & I2 & F2).
+  { subst s2. rewrite cq_poll_k, (poll_fetch_nil s1 Q1). cbn [k_sqq k_inflight k_first].
+    destruct (k_cq (s_k s1)); rewrite ?flush_sqq, ?flush_inflight; cbn [flush_overflow k_first]; rewrite Q1, E1; auto. }
+  destruct (match k_cq (fst (poll_fetch s1)) with [] => false | _ => true end).
+  - rewrite (surjective_pairing (drain_fixed f s2)). cbn [fst].
+    destruct (IH s2 Q2) as [A B]. split; congruence.
+  - cbn [fst]. split; assumption.
+Qed.
+
+Lemma expect_le_1 x : expect x <= 1.
+Proof. unfold expect. destruct (o_st x); try lia. destruct (o_box x); cbn; lia. Qed.
+
+Definition ring_drop_leaves_only_uncancelable : Prop :=
+  forall s, wf s -> s_ring s = true ->
+    let s' := fst (drop_ring_fixed s) in
+    k_sqq (s_k s') = [] /\
+    forall o, mem_nat o (k_inflight (s_k s')) = true -> uncancelable (s_d s) (s_k s') o = true.
+
+Theorem ring_drop_leaves_only_uncancelable_holds : ring_drop_leaves_only_uncancelable.
+Proof.
+  intros s [_ W] R. cbv zeta. unfold drop_ring_fixed. rewrite R.
+  rewrite (surjective_pairing (enter_all s false)), (surjective_pairing (drain_fixed _ _)), (surjective_pairing (dec_shared _)).
+  cbn [fst]. change (s_k (fst (dec_shared (set_ring ?x false)))) with (s_k x).
+  set (k1 := s_k (fst (enter_all s false))).
+  set (s2 := set_k (fst (enter_all s false)) (sync_cancel (s_d (fst (enter_all s false))) k1)).
+  assert (k_sqq (s_k s2) = []) as Q2 by (subst s2 k1; cbn [s_k set_k]; rewrite sync_cancel_sqq; apply enter_all_sqq).
+  split; [apply drain_fixed_sqq; exact Q2|].
+  intros o M. destruct (drain_fixed_inflight (S (length (k_cq (s_k s2)) + length (k_ovf (s_k s2)))) s2 Q2) as [EI EF].
+  rewrite EI in M. unfold uncancelable. rewrite EF.
+  assert (forall o', count_in o' (k_inflight k1) <= 1) as U.
+  { intros o'. subst k1. cbn [fst enter_all s_k set_k]. rewrite flush_inflight.
+    pose proof (consume_all_owed (s_d s) (s_k s) o') as E. rewrite (wf_owed _ W o') in E.
+    pose proof (expect_le_1 (get_op s o')). unfold owedk in E. lia. }
+  exact (sync_cancel_leaves (s_d s) k1 o U M).
+Qed.
+
+Lemma run_prefix_good st (Hst : forall s e, wf s -> ev_ok s e -> step_good s (st s e)) :
+  forall pre s post, wf s -> borrows_ok st s (pre ++ post) ->
+    wf (fst (run st s pre)) /\ s_d (fst (run st s pre)) = s_d s.
+Proof.
+  induction pre as [|e pre IH]; intros s post W B; cbn [run app] in *; [split; [exact W|reflexivity]|].
+  destruct B as [Ok B]. pose proof (Hst s e W Ok) as (W1 & _ & D1).
+  destruct (st s e) as [s1 l1] eqn:E1. cbn [fst snd] in *.
+  destruct (IH s1 post W1 B) as [W2 D2]. destruct (run st s1 pre) as [s2 l2]. cbn [fst] in *.
+  split; [exact W2|congruence].
+Qed.
+
+(** The class H28 holds only operations a cancellation cannot finish. *)
+Definition in_flight_after_ring_drop_is_uncancelable : Prop :=
+  forall s es o, wf s -> borrows_ok step_fixed s es ->
+    op_in_flight_after_ring_drop step_fixed s es o ->
+    mem_nat o (d_surv (s_d s)) = true \/ mem_nat o (d_two (s_d s)) = true.
+
+Theorem in_flight_after_ring_drop_is_uncancelable_holds : in_flight_after_ring_drop_is_uncancelable.
+Proof.
+  intros s es o W B (pre & post & -> & R & M).
+  destruct (run_prefix_good step_fixed step_good_step_fixed pre s _ W B) as [W1 D1].
+  cbn [step_fixed step_with] in M. unfold step_fixed, step_with in M.
+  destruct (ring_drop_leaves_only_uncancelable_holds _ W1 R) as [_ H]. specialize (H o M).
+  unfold uncancelable in H. rewrite D1 in H. apply orb_true_iff in H. destruct H as [H|H]; [left; exact H|right].
+  apply andb_true_iff in H. tauto.
+Qed.
+
+(** Seeded change C12-k: a ring set up without IORING_SETUP_SUBMIT_ALL. The kernel stops consuming at
+    the refused submission; the read queued behind it is consumed by the drain, after the blanket
+    cancellation, and is in flight when the [Ring] is gone although nothing stops the kernel from
+    cancelling it. With the flag (the code as it is) nothing is left in flight. *)
+Definition dims_c12k : dims :=
+  {| d_sqn := 4; d_cqn := 4; d_len_sq := 16; d_len_sqes := 256; d_len_cq := 256; d_two := []; d_surv := []; d_rej := [0] |}.
+Definition kern_c12k : kern :=
+  {| k_sqq := [SOp 0; SOp 1]; k_inflight := []; k_first := []; k_cq := []; k_ovf := [] |}.
+
+Lemma without_submit_all_refuted :
+  k_inflight (ring_drop_kernel consume_stop dims_c12k 3 kern_c12k) = [1] /\
+  k_sqq (ring_drop_kernel consume_stop dims_c12k 3 kern_c12k) = [] /\
+  cancelable dims_c12k (ring_drop_kernel consume_stop dims_c12k 3 kern_c12k) 1 = true /\
+  k_inflight (ring_drop_kernel consume_all dims_c12k 3 kern_c12k) = [].
+Proof. vm_compute. repeat split; reflexivity. Qed.
+
+(** Non-vacuity: a population with a refused submission queued in front of a read. *)
+Definition pop_rej : population :=
+  {| pp_d := dims_c12k; pp_clones := 0; pp_fds := 0;
+     pp_ops := [(None, IQueued); (None, IQueued)]; pp_pools := 0; pp_bufs := [] |}.
+Definition order_rej : list event := [Drop ORing; Drop (OOp 0); Drop (OOp 1)].
+
+Example hypotheses_satisfiable_refused :
+  pop_ok pop_rej /\ covers (init pop_rej) order_rej /\ borrows_ok step_fixed (init pop_rej) order_rej /\
+  exists m, replay (pp_d pop_rej) (mon_of (init pop_rej)) (snd (run step_fixed (init pop_rej) order_rej)) = Some m /\
+            m_fd m = false /\ m_box m = [false; false] /\ m_desc m = [].
 Proof.
   decide_case.
   eexists. split; [vm_compute; reflexivity|repeat split; reflexivity].
